@@ -1886,3 +1886,553 @@ theorem cieFromPrefix_encoded (c : Cfg) (bases : Bases) (ci : ACie) (p : Prefix)
   simp only [Out.bind_ok, Out.pure_eq, ACie.instrOff]
 
 end Gimli.CfiEntry
+namespace Gimli.Spec.Frame
+open Gimli Gimli.Ints Gimli.CfiEntry
+
+/-- width of the CIE id / CIE pointer field -/
+def idSize (eh : Bool) (f : Format) : Nat := if eh ∨ f = .dwarf32 then 4 else 8
+
+/-- the CIE id value -/
+def cieIdVal (eh : Bool) (f : Format) : Nat :=
+  if eh then 0 else match f with
+    | .dwarf32 => 0xffff_ffff
+    | .dwarf64 => 0xffff_ffff_ffff_ffff
+
+/-- total size of an encoded CIE -/
+def ACie.size (eh : Bool) (e : Endian) (ci : ACie) : Nat :=
+  lsz ci.format + (idSize eh ci.format + (ci.fields eh e).length)
+
+/-- the `CommonInformationEntry` the reader must report for `ci` encoded at offset `off` -/
+def ACie.expect (c : Cfg) (bases : Bases) (ci : ACie) (off : Nat) : Cie :=
+  let o := off + lsz ci.format + idSize c.eh ci.format
+  { offset := off, length := idSize c.eh ci.format + (ci.fields c.eh c.e).length, format := ci.format,
+    version := ci.version, aug := ci.expectAug c bases o, asz := cieAsz c ci, caf := ci.caf, daf := ci.daf,
+    rar := ci.rar, instr := ⟨ci.instrOff c o, ci.instr⟩ }
+
+end Gimli.Spec.Frame
+
+namespace Gimli.CfiEntry
+open Gimli Gimli.Ints Gimli.Spec.Frame
+set_option linter.unusedSimpArgs false
+
+theorem cieIdField_eq (eh : Bool) (e : Endian) (f : Format) :
+    cieIdField eh e f = toBytes e (idSize eh f) (cieIdVal eh f) ∧ cieIdVal eh f < 256 ^ idSize eh f ∧
+    isCie ⟨eh, e, 0, .debug⟩ f (cieIdVal eh f) = true := by
+  unfold cieIdField idSize cieIdVal isCie
+  cases eh <;> cases f <;> simp
+
+theorem isCie_cfg (c : Cfg) (f : Format) (id : Nat) : isCie c f id = isCie ⟨c.eh, c.e, 0, .debug⟩ f id := rfl
+
+theorem encodeCie_eq (c : Cfg) (ci : ACie) :
+    encodeCie c.eh c.e ci =
+      lengthField c.e ci.format (idSize c.eh ci.format + (ci.fields c.eh c.e).length) ++
+        (toBytes c.e (idSize c.eh ci.format) (cieIdVal c.eh ci.format) ++ ci.fields c.eh c.e) := by
+  unfold encodeCie
+  simp only [(cieIdField_eq c.eh c.e ci.format).1, List.length_append, toBytes_length]
+
+/-- **one encoded CIE parses to itself** (entry level, any following bytes) -/
+theorem parseCfiEntry_cie (c : Cfg) (bases : Bases) (ci : ACie) (off : Nat) (rest : Bytes)
+    (hw : ci.WF c bases (off + lsz ci.format + idSize c.eh ci.format))
+    (hL : LenOk ci.format (idSize c.eh ci.format + (ci.fields c.eh c.e).length)) :
+    parseCfiEntry c bases ⟨off, encodeCie c.eh c.e ci ++ rest⟩ =
+      .ok (some (.cie (ci.expect c bases off)), ⟨off + ci.size c.eh c.e, rest⟩) := by
+  obtain ⟨_, hid, hcie⟩ := cieIdField_eq c.eh c.e ci.format
+  unfold parseCfiEntry
+  rw [encodeCie_eq, parsePrefix_encoded c ci.format off (idSize c.eh ci.format) (cieIdVal c.eh ci.format) (ci.fields c.eh c.e) rest rfl hid hL]
+  simp only [Out.bind_ok]
+  rw [isCie_cfg, hcie]
+  simp only [if_true]
+  rw [cieFromPrefix_encoded c bases ci _ _ rfl hw]
+  simp only [Out.bind_ok, Out.pure_eq, ACie.expect, ACie.size, Nat.add_assoc]
+
+/-- `cie_from_offset` at the offset of an encoded CIE inside any section -/
+theorem cieFromOffset_encoded (c : Cfg) (bases : Bases) (ci : ACie) (pre post : Bytes)
+    (hw : ci.WF c bases (pre.length + lsz ci.format + idSize c.eh ci.format))
+    (hL : LenOk ci.format (idSize c.eh ci.format + (ci.fields c.eh c.e).length)) :
+    cieFromOffset c bases (pre ++ encodeCie c.eh c.e ci ++ post) pre.length =
+      .ok (ci.expect c bases pre.length) := by
+  obtain ⟨_, hid, hcie⟩ := cieIdField_eq c.eh c.e ci.format
+  unfold cieFromOffset
+  have hskip : (⟨0, pre ++ encodeCie c.eh c.e ci ++ post⟩ : Rd).skip pre.length =
+      .ok ⟨pre.length, encodeCie c.eh c.e ci ++ post⟩ := by
+    unfold Rd.skip
+    rw [if_pos (by simp), List.append_assoc, List.drop_left' rfl]
+    simp
+  rw [hskip]
+  simp only [Out.bind_ok]
+  rw [encodeCie_eq, parsePrefix_encoded c ci.format pre.length (idSize c.eh ci.format) (cieIdVal c.eh ci.format) (ci.fields c.eh c.e) post rfl hid hL]
+  simp only [Out.bind_ok]
+  rw [isCie_cfg, hcie]
+  simp only [Bool.not_true, Bool.false_eq_true, if_false, not_true_eq_false]
+  rw [cieFromPrefix_encoded c bases ci _ _ rfl hw]
+  rfl
+
+end Gimli.CfiEntry
+namespace Gimli.Spec.Frame
+open Gimli Gimli.Ints Gimli.CfiEntry
+
+/-- abstract FDE (relative to the CIE it belongs to, given as the parsed CIE record, which knows
+its own offset, address size and the `R`/`L` encodings) -/
+structure AFde where
+  format : Format
+  /-- operand of the initial-location field (the address itself without `R`) -/
+  initOp : Nat
+  /-- the address-range field -/
+  range : Nat
+  /-- operand of the LSDA pointer (used iff the CIE has `L`) -/
+  lsdaOp : Nat
+  /-- unused bytes at the end of the augmentation data -/
+  augPad : Bytes
+  instr : Bytes
+
+def AFde.addrBytes (e : Endian) (cie : Cie) (fd : AFde) : Bytes :=
+  match cie.aug.bind (·.fdeEnc) with
+  | some enc => (encodeOperand e enc cie.asz fd.initOp).getD [] ++ (encodeOperand e enc cie.asz fd.range).getD []
+  | none => toBytes e cie.asz fd.initOp ++ toBytes e cie.asz fd.range
+
+def AFde.lsdaBytes (e : Endian) (cie : Cie) (fd : AFde) : Bytes :=
+  match cie.aug.bind (·.lsda) with
+  | some enc => (encodeOperand e enc cie.asz fd.lsdaOp).getD []
+  | none => []
+
+def AFde.augData (e : Endian) (cie : Cie) (fd : AFde) : Bytes := fd.lsdaBytes e cie ++ fd.augPad
+
+/-- augmentation data with its length: present iff the CIE has an augmentation -/
+def AFde.augBlock (e : Endian) (cie : Cie) (fd : AFde) : Bytes :=
+  match cie.aug with
+  | some _ => Leb.encodeU (fd.augData e cie).length ++ fd.augData e cie
+  | none => []
+
+/-- everything after the CIE pointer -/
+def AFde.fields (e : Endian) (cie : Cie) (fd : AFde) : Bytes :=
+  fd.addrBytes e cie ++ (fd.augBlock e cie ++ fd.instr)
+
+/-- the CIE pointer: distance back from the field in `.eh_frame`, section offset in `.debug_frame` -/
+def ciePtrVal (eh : Bool) (f : Format) (fdeOff cieOff : Nat) : Nat :=
+  if eh then fdeOff + lsz f - cieOff else cieOff
+
+/-- an FDE entry at offset `fdeOff`: length, CIE pointer, fields -/
+def encodeFde (eh : Bool) (e : Endian) (cie : Cie) (fdeOff : Nat) (fd : AFde) : Bytes :=
+  let body := toBytes e (idSize eh fd.format) (ciePtrVal eh fd.format fdeOff cie.offset) ++ fd.fields e cie
+  lengthField e fd.format body.length ++ body
+
+def AFde.size (eh : Bool) (e : Endian) (cie : Cie) (fd : AFde) : Nat :=
+  lsz fd.format + (idSize eh fd.format + (fd.fields e cie).length)
+
+/-- offset of the address fields -/
+def AFde.addrOff (eh : Bool) (fd : AFde) (fdeOff : Nat) : Nat := fdeOff + lsz fd.format + idSize eh fd.format
+
+/-- the initial location the reader must report -/
+def AFde.initial (c : Cfg) (bases : Bases) (cie : Cie) (fd : AFde) (fdeOff : Nat) : Nat :=
+  match cie.aug.bind (·.fdeEnc) with
+  | some enc =>
+    ((neededBase enc ⟨bases.ehFrame, none, cie.asz⟩ (fd.addrOff c.eh fdeOff)).getD 0
+      + fd.initOp) % 2 ^ 64 % 2 ^ (8 * cie.asz)
+  | none => fd.initOp
+
+/-- offset of the LSDA pointer (start of the augmentation data) -/
+def AFde.lsdaOff (c : Cfg) (cie : Cie) (fd : AFde) (fdeOff : Nat) : Nat :=
+  fd.addrOff c.eh fdeOff + (fd.addrBytes c.e cie).length + (Leb.encodeU (fd.augData c.e cie).length).length
+
+def AFde.instrOff (c : Cfg) (cie : Cie) (fd : AFde) (fdeOff : Nat) : Nat :=
+  match cie.aug with
+  | some _ => fd.lsdaOff c cie fdeOff + (fd.augData c.e cie).length
+  | none => fd.addrOff c.eh fdeOff + (fd.addrBytes c.e cie).length
+
+/-- the LSDA pointer the reader must report -/
+def AFde.lsda (c : Cfg) (bases : Bases) (cie : Cie) (fd : AFde) (fdeOff : Nat) : Option Ptr :=
+  match cie.aug.bind (·.lsda) with
+  | some enc =>
+    some (Ptr.new enc (((neededBase enc ⟨bases.ehFrame, some (fd.initial c bases cie fdeOff), cie.asz⟩
+      (fd.lsdaOff c cie fdeOff)).getD 0 + fd.lsdaOp) % 2 ^ 64 % 2 ^ (8 * cie.asz)))
+  | none => none
+
+/-- the `FrameDescriptionEntry` the reader must report -/
+def AFde.expect (c : Cfg) (bases : Bases) (cie : Cie) (fd : AFde) (fdeOff : Nat) : Fde :=
+  { offset := fdeOff, length := idSize c.eh fd.format + (fd.fields c.e cie).length, format := fd.format,
+    cie := cie, initial := fd.initial c bases cie fdeOff, range := fd.range,
+    lsda := fd.lsda c bases cie fdeOff, instr := ⟨fd.instrOff c cie fdeOff, fd.instr⟩ }
+
+/-- the partially parsed FDE the iterator must yield -/
+def AFde.expectPartial (c : Cfg) (cie : Cie) (fd : AFde) (fdeOff : Nat) : PartialFde :=
+  { offset := fdeOff, length := idSize c.eh fd.format + (fd.fields c.e cie).length, format := fd.format,
+    cieOffset := cie.offset, rest := ⟨fd.addrOff c.eh fdeOff, fd.fields c.e cie⟩ }
+
+/-- a pointer field is encodable and its base is provided -/
+def PtrOk (e : Endian) (enc : Nat) (p : PeParams) (off x : Nat) : Prop :=
+  isValidEncoding enc = true ∧ enc ≠ 0xff ∧ peApplication enc ≠ 0x50 ∧ 1 ≤ p.asz ∧ p.asz ≤ 8 ∧
+  (neededBase enc p off).isSome = true ∧ (encodeOperand e enc p.asz x).isSome = true
+
+structure AFde.WF (c : Cfg) (bases : Bases) (cie : Cie) (fd : AFde) (fdeOff : Nat) : Prop where
+  hlen : LenOk fd.format (idSize c.eh fd.format + (fd.fields c.e cie).length)
+  hptr : ciePtrVal c.eh fd.format fdeOff cie.offset < 256 ^ idSize c.eh fd.format
+  hnotcie : isCie c fd.format (ciePtrVal c.eh fd.format fdeOff cie.offset) = false
+  hback : c.eh = true → cie.offset ≤ fdeOff + lsz fd.format
+  haddr : match cie.aug.bind (·.fdeEnc) with
+    | some enc => PtrOk c.e enc ⟨bases.ehFrame, none, cie.asz⟩
+        (fd.addrOff c.eh fdeOff) fd.initOp ∧ (encodeOperand c.e enc cie.asz fd.range).isSome = true
+    | none => (cie.asz = 1 ∨ cie.asz = 2 ∨ cie.asz = 4 ∨ cie.asz = 8) ∧ fd.initOp < 2 ^ (8 * cie.asz) ∧
+        fd.range < 2 ^ (8 * cie.asz)
+  hlsda : match cie.aug.bind (·.lsda) with
+    | some enc => PtrOk c.e enc ⟨bases.ehFrame, some (fd.initial c bases cie fdeOff), cie.asz⟩
+        (fd.lsdaOff c cie fdeOff) fd.lsdaOp
+    | none => True
+  hdata : (fd.augData c.e cie).length < 2 ^ 64
+
+end Gimli.Spec.Frame
+
+namespace Gimli.CfiEntry
+open Gimli Gimli.Ints Gimli.Spec.Frame
+set_option linter.unusedSimpArgs false
+
+theorem pep_ptrOk (m : Mode) (e : Endian) (enc : Nat) (p : PeParams) (off x : Nat) (t : Bytes)
+    (h : PtrOk e enc p off x) :
+    parseEncodedPointer m e enc p ⟨off, (encodeOperand e enc p.asz x).getD [] ++ t⟩ =
+      .ok (Ptr.new enc (((neededBase enc p off).getD 0 + x) % 2 ^ 64 % 2 ^ (8 * p.asz)),
+           ⟨off + ((encodeOperand e enc p.asz x).getD []).length, t⟩) := by
+  obtain ⟨hv, ho, hal, h1, h8, hb, hx⟩ := h
+  obtain ⟨b, hb⟩ := Option.isSome_iff_exists.mp hb
+  obtain ⟨bytes, hx⟩ := Option.isSome_iff_exists.mp hx
+  rw [hb, hx]
+  simp only [Option.getD_some]
+  exact pep_roundtrip m e enc p off x b bytes t hv ho hal h1 h8 hb hx
+
+theorem pev_some (e : Endian) (enc asz x off : Nat) (t : Bytes)
+    (h : (encodeOperand e enc asz x).isSome = true) :
+    parseEncodedValue e enc asz ⟨off, (encodeOperand e enc asz x).getD [] ++ t⟩ =
+      .ok (x, ⟨off + ((encodeOperand e enc asz x).getD []).length, t⟩) := by
+  obtain ⟨bytes, hx⟩ := Option.isSome_iff_exists.mp h
+  rw [hx]
+  simp only [Option.getD_some]
+  exact pev_roundtrip e enc asz x off bytes t hx
+
+theorem ptr_new_pointer (enc v : Nat) : (Ptr.new enc v).pointer = v := by
+  unfold Ptr.new; split <;> rfl
+
+theorem parseAddresses_encoded (c : Cfg) (bases : Bases) (cie : Cie) (fd : AFde) (fdeOff : Nat) (t : Bytes)
+    (hw : fd.WF c bases cie fdeOff) :
+    parseAddresses c cie { bases := bases.ehFrame, funcBase := none, asz := cie.asz }
+        ⟨fd.addrOff c.eh fdeOff, fd.addrBytes c.e cie ++ t⟩ =
+      .ok ((fd.initial c bases cie fdeOff, fd.range),
+           ⟨fd.addrOff c.eh fdeOff + (fd.addrBytes c.e cie).length, t⟩) := by
+  have ha := hw.haddr
+  unfold parseAddresses AFde.addrBytes AFde.initial
+  cases henc : cie.aug.bind (·.fdeEnc) with
+  | some enc =>
+    rw [henc] at ha
+    simp only at ha ⊢
+    rw [List.append_assoc, pep_ptrOk c.m c.e enc _ _ _ _ ha.1]
+    simp only [Out.bind_ok]
+    rw [pev_some c.e enc cie.asz fd.range _ t ha.2]
+    simp only [Out.bind_ok, Out.pure_eq, ptr_new_pointer, List.length_append, Nat.add_assoc]
+  | none =>
+    rw [henc] at ha
+    simp only at ha ⊢
+    obtain ⟨hasz, hi, hr⟩ := ha
+    have hrd1 : readAddress c.e cie.asz (toBytes c.e cie.asz fd.initOp ++ (toBytes c.e cie.asz fd.range ++ t)) =
+        .ok (fd.initOp, toBytes c.e cie.asz fd.range ++ t) := by
+      unfold readAddress
+      rw [if_pos hasz]
+      exact readFixed_toBytes _ _ _ _ (by rw [pow256]; exact hi)
+    have hrd2 : readAddress c.e cie.asz (toBytes c.e cie.asz fd.range ++ t) = .ok (fd.range, t) := by
+      unfold readAddress
+      rw [if_pos hasz]
+      exact readFixed_toBytes _ _ _ _ (by rw [pow256]; exact hr)
+    rw [List.append_assoc, lift_ok _ _ _ _ _ hrd1]
+    simp only [Out.bind_ok]
+    rw [lift_ok _ _ _ _ _ hrd2]
+    simp only [Out.bind_ok, Out.pure_eq, List.length_append, toBytes_length, Nat.add_assoc]
+
+theorem fdeAugData_encoded (c : Cfg) (bases : Bases) (cie : Cie) (fd : AFde) (fdeOff : Nat)
+    (hw : fd.WF c bases cie fdeOff) :
+    fdeAugData c cie { bases := bases.ehFrame, funcBase := none, asz := cie.asz } (fd.initial c bases cie fdeOff)
+        ⟨fd.addrOff c.eh fdeOff + (fd.addrBytes c.e cie).length, fd.augBlock c.e cie ++ fd.instr⟩ =
+      .ok (fd.lsda c bases cie fdeOff, ⟨fd.instrOff c cie fdeOff, fd.instr⟩) := by
+  have hl := hw.hlsda
+  have hd := hw.hdata
+  unfold fdeAugData AFde.augBlock AFde.lsda AFde.instrOff
+  cases haug : cie.aug with
+  | none => simp [haug]
+  | some a =>
+    simp only [haug, Option.bind_some] at hl ⊢
+    rw [List.append_assoc, lift_uleb _ _ _ hd]
+    simp only [Out.bind_ok]
+    have hsplit : (⟨fd.addrOff c.eh fdeOff + (fd.addrBytes c.e cie).length +
+          (Leb.encodeU (fd.augData c.e cie).length).length, fd.augData c.e cie ++ fd.instr⟩ : Rd).split
+        (fd.augData c.e cie).length =
+        .ok (⟨fd.lsdaOff c cie fdeOff, fd.augData c.e cie⟩,
+             ⟨fd.lsdaOff c cie fdeOff + (fd.augData c.e cie).length, fd.instr⟩) := by
+      unfold Rd.split AFde.lsdaOff
+      rw [if_pos (by simp), List.take_left' rfl, List.drop_left' rfl]
+    rw [hsplit]
+    simp only [Out.bind_ok]
+    cases hle : a.lsda with
+    | none => simp [hle]
+    | some enc =>
+      simp only [hle] at hl ⊢
+      have hdat : fd.augData c.e cie = (encodeOperand c.e enc cie.asz fd.lsdaOp).getD [] ++ fd.augPad := by
+        unfold AFde.augData AFde.lsdaBytes
+        simp [haug, hle]
+      rw [hdat] at hsplit ⊢
+      rw [pep_ptrOk c.m c.e enc ⟨bases.ehFrame, some (fd.initial c bases cie fdeOff), cie.asz⟩ _ _ _ hl]
+      simp only [Out.bind_ok, Out.pure_eq]
+
+/-- **an encoded FDE parses to itself, bound to the CIE its pointer designates** -/
+theorem parseRest_encoded (c : Cfg) (bases : Bases) (sec : Bytes) (cie : Cie) (fd : AFde) (fdeOff : Nat)
+    (hcie : cieFromOffset c bases sec cie.offset = .ok cie)
+    (hw : fd.WF c bases cie fdeOff) :
+    parseRest c bases sec (fd.expectPartial c cie fdeOff) = .ok (fd.expect c bases cie fdeOff) := by
+  unfold parseRest AFde.expectPartial
+  simp only [hcie, Out.bind_ok]
+  unfold AFde.fields
+  rw [parseAddresses_encoded c bases cie fd fdeOff _ hw]
+  simp only [Out.bind_ok]
+  rw [fdeAugData_encoded c bases cie fd fdeOff hw]
+  simp only [Out.bind_ok, Out.pure_eq, AFde.expect, AFde.fields]
+
+theorem parseCfiEntry_fde (c : Cfg) (bases : Bases) (cie : Cie) (fd : AFde) (off : Nat) (rest : Bytes)
+    (hw : fd.WF c bases cie off) :
+    parseCfiEntry c bases ⟨off, encodeFde c.eh c.e cie off fd ++ rest⟩ =
+      .ok (some (.fde (fd.expectPartial c cie off)), ⟨off + fd.size c.eh c.e cie, rest⟩) := by
+  unfold parseCfiEntry encodeFde
+  simp only [List.length_append, toBytes_length]
+  rw [parsePrefix_encoded c fd.format off (idSize c.eh fd.format) (ciePtrVal c.eh fd.format off cie.offset)
+    (fd.fields c.e cie) rest rfl hw.hptr hw.hlen]
+  simp only [Out.bind_ok, hw.hnotcie, Bool.false_eq_true, if_false]
+  have hpf : partialFromPrefix c
+      { offset := off, length := idSize c.eh fd.format + (fd.fields c.e cie).length, format := fd.format,
+        cieOffsetBase := off + lsz fd.format,
+        cieIdOrOffset := ciePtrVal c.eh fd.format off cie.offset,
+        rest := ⟨off + lsz fd.format + idSize c.eh fd.format, fd.fields c.e cie⟩ } =
+      .ok (fd.expectPartial c cie off) := by
+    unfold partialFromPrefix resolveCieOffset ciePtrVal AFde.expectPartial AFde.addrOff
+    by_cases heh : c.eh = true
+    · have := hw.hback heh
+      simp only [heh, if_true]
+      rw [if_pos (by omega)]
+      simp only
+      congr 2
+      omega
+    · simp [heh]
+  rw [hpf]
+  simp only [Out.bind_ok, Out.pure_eq, AFde.size, Nat.add_assoc]
+
+end Gimli.CfiEntry
+namespace Gimli.Spec.Frame
+open Gimli Gimli.Ints Gimli.CfiEntry
+
+/-- an abstract entry; an FDE names the (parsed) CIE it belongs to -/
+inductive AEntry where
+  | cie (ci : ACie)
+  | fde (cie : Cie) (fd : AFde)
+
+def AEntry.size (eh : Bool) (e : Endian) : AEntry → Nat
+  | .cie ci => ci.size eh e
+  | .fde k fd => fd.size eh e k
+
+/-- the entries laid out one after the other from section offset `off` -/
+def encodeEntries (eh : Bool) (e : Endian) : Nat → List AEntry → Bytes
+  | _, [] => []
+  | off, .cie ci :: t => encodeCie eh e ci ++ encodeEntries eh e (off + ci.size eh e) t
+  | off, .fde cie fd :: t => encodeFde eh e cie off fd ++ encodeEntries eh e (off + fd.size eh e cie) t
+
+/-- a whole `.eh_frame` / `.debug_frame` section: the entries, optionally followed by a zero
+length word (the `.eh_frame` terminator; skipped in `.debug_frame`) -/
+def encodeFrameSection (eh : Bool) (e : Endian) (es : List AEntry) (terminator : Bool) : Bytes :=
+  encodeEntries eh e 0 es ++ (if terminator then [0, 0, 0, 0] else [])
+
+/-- what the iterator must yield -/
+def expectEntries (c : Cfg) (bases : Bases) : Nat → List AEntry → List Entry
+  | _, [] => []
+  | off, .cie ci :: t => .cie (ci.expect c bases off) :: expectEntries c bases (off + ci.size c.eh c.e) t
+  | off, .fde cie fd :: t => .fde (fd.expectPartial c cie off) :: expectEntries c bases (off + fd.size c.eh c.e cie) t
+
+/-- every entry is well formed at the offset where it is laid out -/
+def EntriesWF (c : Cfg) (bases : Bases) : Nat → List AEntry → Prop
+  | _, [] => True
+  | off, .cie ci :: t =>
+    ci.WF c bases (off + lsz ci.format + idSize c.eh ci.format) ∧
+    LenOk ci.format (idSize c.eh ci.format + (ci.fields c.eh c.e).length) ∧
+    EntriesWF c bases (off + ci.size c.eh c.e) t
+  | off, .fde cie fd :: t => fd.WF c bases cie off ∧ EntriesWF c bases (off + fd.size c.eh c.e cie) t
+
+end Gimli.Spec.Frame
+
+namespace Gimli.CfiEntry
+open Gimli Gimli.Ints Gimli.Spec.Frame
+set_option linter.unusedSimpArgs false
+
+theorem encodeCie_length (c : Cfg) (ci : ACie) : (encodeCie c.eh c.e ci).length = ci.size c.eh c.e := by
+  rw [encodeCie_eq]
+  simp [lengthField_length, toBytes_length, ACie.size]
+
+theorem encodeFde_length (c : Cfg) (cie : Cie) (fd : AFde) (off : Nat) :
+    (encodeFde c.eh c.e cie off fd).length = fd.size c.eh c.e cie := by
+  unfold encodeFde
+  simp [lengthField_length, toBytes_length, AFde.size]
+
+theorem size_pos_cie (c : Cfg) (ci : ACie) : 4 ≤ ci.size c.eh c.e := by
+  unfold ACie.size lsz; cases ci.format <;> simp <;> omega
+
+theorem size_pos_fde (c : Cfg) (cie : Cie) (fd : AFde) : 4 ≤ fd.size c.eh c.e cie := by
+  unfold AFde.size lsz; cases fd.format <;> simp <;> omega
+
+theorem zero_word (c : Cfg) (bases : Bases) (off : Nat) :
+    parseCfiEntry c bases ⟨off, [0, 0, 0, 0]⟩ = .ok (none, ⟨off + 4, []⟩) := by
+  unfold parseCfiEntry parsePrefix
+  have : readInitialLength c.e 64 [0, 0, 0, 0] = .ok ((0, .dwarf32), []) := by
+    cases c.e <;> decide
+  have hl := lift_ok (readInitialLength c.e 64) off [0, 0, 0, 0] [] (0, Format.dwarf32) (by simpa using this)
+  simp only [List.append_nil] at hl
+  rw [hl]
+  simp
+
+theorem next_some (c : Cfg) (bases : Bases) (k : Nat) (r r' : Rd) (en : Entry)
+    (hne : r.bs ≠ []) (h : parseCfiEntry c bases r = .ok (some en, r')) :
+    next c bases (k + 1) r = .ok (some en, r') := by
+  rw [next]
+  have : r.bs.isEmpty = false := by cases hb : r.bs <;> simp_all
+  simp [this, h]
+
+/-- iterating the encoded entries yields exactly the expected items, then ends -/
+theorem entries_encoded (c : Cfg) (bases : Bases) (term : Bool) :
+    ∀ (es : List AEntry) (off fuel : Nat), es.length < fuel → EntriesWF c bases off es →
+      entries c bases fuel ⟨off, encodeEntries c.eh c.e off es ++ (if term then [0, 0, 0, 0] else [])⟩ =
+        (expectEntries c bases off es, .ok ()) := by
+  intro es
+  induction es with
+  | nil =>
+    intro off fuel hf _
+    obtain ⟨fuel, rfl⟩ : ∃ k, fuel = k + 1 := ⟨fuel - 1, by omega⟩
+    simp only [encodeEntries, List.nil_append, expectEntries]
+    rw [entries]
+    cases term with
+    | false => simp [next]
+    | true =>
+      simp only [if_true, List.length_cons, List.length_nil]
+      rw [next]
+      simp only [List.isEmpty_cons, Bool.false_eq_true, if_false, zero_word]
+      by_cases heh : c.eh = true
+      · simp [heh]
+      · simp [heh, next]
+  | cons en t ih =>
+    intro off fuel hf hwf
+    obtain ⟨fuel, rfl⟩ : ∃ k, fuel = k + 1 := ⟨fuel - 1, by omega⟩
+    have hft : t.length < fuel := by simp at hf; omega
+    cases en with
+    | cie ci =>
+      obtain ⟨hw, hL, hrest⟩ := hwf
+      simp only [encodeEntries, expectEntries, List.append_assoc]
+      rw [entries]
+      have hne : (⟨off, encodeCie c.eh c.e ci ++ (encodeEntries c.eh c.e (off + ci.size c.eh c.e) t ++
+          (if term then [0, 0, 0, 0] else []))⟩ : Rd).bs ≠ [] := by
+        intro h
+        have := congrArg List.length h
+        have h4 := size_pos_cie c ci
+        simp [encodeCie_length] at this
+        omega
+      rw [next_some c bases _ _ _ _ hne (parseCfiEntry_cie c bases ci off _ hw hL)]
+      simp only
+      rw [ih _ _ hft hrest]
+    | fde cie fd =>
+      obtain ⟨hw, hrest⟩ := hwf
+      simp only [encodeEntries, expectEntries, List.append_assoc]
+      rw [entries]
+      have hne : (⟨off, encodeFde c.eh c.e cie off fd ++ (encodeEntries c.eh c.e (off + fd.size c.eh c.e cie) t ++
+          (if term then [0, 0, 0, 0] else []))⟩ : Rd).bs ≠ [] := by
+        intro h
+        have := congrArg List.length h
+        have h4 := size_pos_fde c cie fd
+        simp [encodeFde_length] at this
+        omega
+      rw [next_some c bases _ _ _ _ hne (parseCfiEntry_fde c bases cie fd off _ hw)]
+      simp only
+      rw [ih _ _ hft hrest]
+
+theorem encodeEntries_length (c : Cfg) : ∀ (es : List AEntry) (off : Nat),
+    es.length ≤ (encodeEntries c.eh c.e off es).length := by
+  intro es
+  induction es with
+  | nil => intro off; simp [encodeEntries]
+  | cons en t ih =>
+    intro off
+    cases en with
+    | cie ci =>
+      have := ih (off + ci.size c.eh c.e)
+      have h4 := size_pos_cie c ci
+      simp only [encodeEntries, List.length_append, List.length_cons, encodeCie_length]
+      omega
+    | fde cie fd =>
+      have := ih (off + fd.size c.eh c.e cie)
+      have h4 := size_pos_fde c cie fd
+      simp only [encodeEntries, List.length_append, List.length_cons, encodeFde_length]
+      omega
+
+end Gimli.CfiEntry
+namespace Gimli.Spec.Frame
+open Gimli Gimli.Ints Gimli.CfiEntry
+
+/-- total encoded size of a list of entries -/
+def totalSize (eh : Bool) (e : Endian) : List AEntry → Nat
+  | [] => 0
+  | en :: t => en.size eh e + totalSize eh e t
+
+end Gimli.Spec.Frame
+
+namespace Gimli.CfiEntry
+open Gimli Gimli.Ints Gimli.Spec.Frame
+set_option linter.unusedSimpArgs false
+
+theorem encodeEntries_split (c : Cfg) (bases : Bases) (ci : ACie) (es2 : List AEntry) :
+    ∀ (es1 : List AEntry) (off : Nat),
+      (encodeEntries c.eh c.e off (es1 ++ .cie ci :: es2) =
+        encodeEntries c.eh c.e off es1 ++ (encodeCie c.eh c.e ci ++
+          encodeEntries c.eh c.e (off + totalSize c.eh c.e es1 + ci.size c.eh c.e) es2)) ∧
+      (encodeEntries c.eh c.e off es1).length = totalSize c.eh c.e es1 ∧
+      (EntriesWF c bases off (es1 ++ .cie ci :: es2) →
+        ci.WF c bases (off + totalSize c.eh c.e es1 + lsz ci.format + idSize c.eh ci.format) ∧
+        LenOk ci.format (idSize c.eh ci.format + (ci.fields c.eh c.e).length)) := by
+  intro es1
+  induction es1 with
+  | nil =>
+    intro off
+    simp only [List.nil_append, encodeEntries, totalSize, Nat.add_zero, List.length_nil, EntriesWF]
+    exact ⟨trivial, trivial, fun h => ⟨h.1, h.2.1⟩⟩
+  | cons en t ih =>
+    intro off
+    cases en with
+    | cie ci' =>
+      obtain ⟨h1, h2, h3⟩ := ih (off + ci'.size c.eh c.e)
+      simp only [List.cons_append, encodeEntries, totalSize, AEntry.size, List.append_assoc, List.length_append,
+        encodeCie_length, EntriesWF]
+      refine ⟨?_, by omega, ?_⟩
+      · rw [h1]; simp only [Nat.add_assoc]
+      · intro hw
+        have := h3 hw.2.2
+        simpa only [Nat.add_assoc] using this
+    | fde k fd =>
+      obtain ⟨h1, h2, h3⟩ := ih (off + fd.size c.eh c.e k)
+      simp only [List.cons_append, encodeEntries, totalSize, AEntry.size, List.append_assoc, List.length_append,
+        encodeFde_length, EntriesWF]
+      refine ⟨?_, by omega, ?_⟩
+      · rw [h1]; simp only [Nat.add_assoc]
+      · intro hw
+        have := h3 hw.2
+        simpa only [Nat.add_assoc] using this
+
+/-- the CIE an FDE of the section designates is found by `cie_from_offset` -/
+theorem cieFromOffset_section (c : Cfg) (bases : Bases) (es1 es2 : List AEntry) (ci : ACie) (term : Bool)
+    (hwf : EntriesWF c bases 0 (es1 ++ .cie ci :: es2)) :
+    cieFromOffset c bases (encodeFrameSection c.eh c.e (es1 ++ .cie ci :: es2) term) (totalSize c.eh c.e es1) =
+      .ok (ci.expect c bases (totalSize c.eh c.e es1)) := by
+  obtain ⟨h1, h2, h3⟩ := encodeEntries_split c bases ci es2 es1 0
+  obtain ⟨hw, hL⟩ := h3 hwf
+  unfold encodeFrameSection
+  rw [h1, List.append_assoc, List.append_assoc, ← List.append_assoc (encodeEntries c.eh c.e 0 es1)]
+  have := cieFromOffset_encoded c bases ci (encodeEntries c.eh c.e 0 es1)
+    (encodeEntries c.eh c.e (0 + totalSize c.eh c.e es1 + ci.size c.eh c.e) es2 ++ (if term then [0, 0, 0, 0] else []))
+    (by rw [h2]; simpa using hw) hL
+  rw [h2] at this
+  exact this
+
+end Gimli.CfiEntry
